@@ -13,7 +13,9 @@ import sys
 
 import vlib
 
-N = {"quick": {"C27": 1500, "C29": 1200, "C30": 1200}, "thorough": {"C27": 20000, "C29": 15000, "C30": 15000}}
+N = {"quick": {"C27": 1200, "C29": 1000, "C30": 1000, "C32": 800, "C33": 1000, "C34": 1000, "C35": 1200},
+     "thorough": {"C27": 20000, "C29": 15000, "C30": 15000, "C32": 12000, "C33": 15000, "C34": 15000, "C35": 20000}}
+GEN = {}
 
 
 def i64(n):
@@ -125,6 +127,218 @@ def gen_c30_scenario(rng, case):
     return {"case": case, "kind": "c30", "kgs": [], "users": [], "acls": [], "steps": steps}
 
 
+# ---- C32: write statements with the abstract operation the set model applies
+
+def gen_c32_scenario(rng, case):
+    steps = []
+    for _ in range(rng.randint(2, 5)):
+        lines, ops = [], []
+        for _ in range(rng.randint(1, 4)):
+            rel = rng.choice(["m", "n"])
+            ar = 1 if rel == "m" else 2
+            mk = lambda: tuple(rng.randint(1, 4) for _ in range(ar))
+            txt = lambda t: "(" + ", ".join(map(str, t)) + ")"
+            enc = lambda t: [i64(v) for v in t]
+            x = rng.random()
+            if x < 0.2:
+                t = mk()
+                lines.append(f"+{rel}{txt(t)}")
+                ops.append({"k": "ins", "kg": "default", "rel": rel, "tuples": [enc(t)]})
+            elif x < 0.45:
+                ts = [mk() for _ in range(rng.randint(2, 5))]
+                lines.append(f"+{rel}[" + ", ".join(map(txt, ts)) + "]")
+                ops.append({"k": "ins", "kg": "default", "rel": rel, "tuples": [enc(t) for t in ts]})
+            elif x < 0.6:
+                t = mk()
+                lines.append(f"-{rel}{txt(t)}")
+                ops.append({"k": "del", "kg": "default", "rel": rel, "tuples": [enc(t)]})
+            elif x < 0.7:
+                ts = [mk() for _ in range(rng.randint(2, 4))]
+                lines.append(f"-{rel}[" + ", ".join(map(txt, ts)) + "]")
+                ops.append({"k": "del", "kg": "default", "rel": rel, "tuples": [enc(t) for t in ts]})
+            elif x < 0.87:
+                col = rng.randint(1, ar)
+                op = rng.choice(["=", "!="])
+                c = rng.randint(1, 4)
+                vs = ["X", "Y"][:ar]
+                lines.append(f"-{rel}({', '.join(vs)}) <- {rel}({', '.join(vs)}), {vs[col - 1]} {op} {c}")
+                ops.append({"k": "cdel", "kg": "default", "rel": rel, "col": col, "op": op, "val": i64(c)})
+            else:
+                # update on the binary relation: set one column to a constant where the other matches
+                col = rng.randint(1, 2)
+                setcol = 3 - col if rng.random() < 0.7 else col
+                op = rng.choice(["=", "!="])
+                c, d = rng.randint(1, 4), rng.randint(1, 4)
+                vs = ["X", "Y"]
+                new = list(vs)
+                new[setcol - 1] = str(d)
+                lines.append(f"-n(X, Y), +n({', '.join(new)}) <- n(X, Y), {vs[col - 1]} {op} {c}")
+                ops.append({"k": "upd", "kg": "default", "rel": "n", "col": col, "op": op, "val": i64(c),
+                            "setcol": setcol, "setval": i64(d)})
+        steps.append({"k": "req", "who": None, "kg": "default", "text": "\n".join(lines), "judge": ["C32"],
+                      "bad": False, "ops": ops, "markers": {}})
+    return {"case": case, "kind": "c32", "kgs": [], "users": [], "acls": [], "steps": steps}
+
+
+# ---- C33: declared schemas
+
+def txt_val(v):
+    k, p = v
+    if k == "i64":
+        return p
+    if k == "s":
+        return '"%s"' % p
+    if k == "f":
+        return p
+    return p  # bool
+
+
+def exact_val(v):
+    """tagged value as the harness observes it (Exact encoding)"""
+    k, p = v
+    if k == "f":
+        import struct
+        return ["f", "bits:%016x" % struct.unpack(">Q", struct.pack(">d", float(p)))[0]]
+    return [k, p]
+
+
+def rand_val(rng, kind):
+    if kind == "i64":
+        return ("i64", str(rng.randint(0, 5)))
+    if kind == "s":
+        return ("s", rng.choice(["a", "b", "xy"]))
+    if kind == "f":
+        return ("f", rng.choice(["1.5", "2.25", "0.5"]))
+    return ("b", rng.choice(["true", "false"]))
+
+
+def gen_c33_scenario(rng, case):
+    tys = ["int", "string", "float", "bool"]
+    kind_of = {"int": "i64", "string": "s", "float": "f", "bool": "b"}
+    ar = rng.randint(1, 3)
+    types = [rng.choice(tys) for _ in range(ar)]
+    cols = ", ".join(f"c{i}: {t}" for i, t in enumerate(types))
+    steps = []
+    data_first = rng.random() < 0.15
+    if data_first:
+        # data before the schema: stored tuples may not conform to the schema declared later
+        t = [rand_val(rng, rng.choice(list(kind_of.values()))) for _ in range(ar)]
+        steps.append({"k": "req", "who": None, "kg": "default", "text": "+t(" + ", ".join(map(txt_val, t)) + ")",
+                      "judge": [], "markers": {}})
+    steps.append({"k": "req", "who": None, "kg": "default", "text": f"+t({cols})", "judge": [], "markers": {}})
+    for _ in range(rng.randint(2, 5)):
+        n = rng.randint(1, 3)
+        batch = []
+        for _ in range(n):
+            mode = rng.random()
+            a = ar if mode < 0.85 else max(1, ar + rng.choice([-1, 1]))
+            tup = []
+            for i in range(a):
+                want = kind_of[types[i]] if i < ar else "i64"
+                k = want if rng.random() < 0.8 else rng.choice(list(kind_of.values()))
+                tup.append(rand_val(rng, k))
+            batch.append(tup)
+        if n == 1:
+            text = "+t(" + ", ".join(map(txt_val, batch[0])) + ")"
+        else:
+            text = "+t[" + ", ".join("(" + ", ".join(map(txt_val, t)) + ")" for t in batch) + "]"
+        via = rng.random()
+        step = {"k": "req", "who": None, "kg": "default", "text": text, "judge": ["C33"], "rel": "t", "types": types,
+                "ops": [{"k": "ins", "kg": "default", "rel": "t", "tuples": [[exact_val(v) for v in t] for t in batch]}],
+                "markers": {}, "data_first": data_first}
+        if via < 0.25:
+            # the same batch through an update's insert side is not generated here (C32 covers updates)
+            step["text"] = "// batch\n" + text
+        steps.append(step)
+    return {"case": case, "kind": "c33", "kgs": [], "users": [], "acls": [], "steps": steps}
+
+
+# ---- C34: rule sets with / without recursion through negation
+
+def ast_atom(kind, rel, var="X"):
+    return {"k": kind, "r": rel, "a": [{"t": "v", "n": var}]}
+
+
+def gen_c34_scenario(rng, case):
+    preds = ["a", "b", "c", "d"][: rng.randint(2, 4)]
+    rules = []
+    for p in preds:
+        for _ in range(rng.randint(1, 2)):
+            body = [("pos", "z")]
+            for _ in range(rng.randint(0, 2)):
+                body.append((rng.choice(["pos", "pos", "neg"]), rng.choice(preds)))
+            # a rule must not be `p <- ..., p` only trivially; keep as generated
+            text = f"{p}(X) <- " + ", ".join(("!" if k == "neg" else "") + f"{r}(X)" for k, r in body)
+            ast = {"h": {"r": p, "a": [{"t": "v", "n": "X"}]}, "b": [ast_atom(k, r) for k, r in body]}
+            rules.append((p, text, ast))
+    rng.shuffle(rules)
+    split = rng.randint(0, len(rules))
+    pers, sess = rules[:split], rules[split:]
+    steps = [{"k": "req", "who": None, "kg": "default", "text": "+z[(1), (2)]", "judge": [], "markers": {}}]
+    for p, text, ast in pers:
+        steps.append({"k": "req", "who": None, "kg": "default", "text": "+" + text, "judge": [], "markers": {}})
+    q = rng.choice(preds)
+    prog = "\n".join(t for _, t, _ in sess) + ("\n" if sess else "") + f"?{q}(X)"
+    steps.append({"k": "req", "who": None, "kg": "default", "text": prog, "judge": ["C34"], "markers": {},
+                  "pers": [{"text": "".join(t.split()), "ast": a} for _, t, a in pers],
+                  "sess": [a for _, _, a in sess]})
+    return {"case": case, "kind": "c34", "kgs": [], "users": [], "acls": [], "steps": steps}
+
+
+# ---- C35: sort annotations, limit, offset over mixed value kinds
+
+def gen_c35_scenario(rng, case):
+    ar = rng.randint(2, 3)
+    strs = ["a", "ab", "b", "c"]
+    srank = {s: i + 1 for i, s in enumerate(sorted(strs))}
+    def v():
+        x = rng.random()
+        if x < 0.3:
+            return ["i64", str(rng.randint(0, 4))]
+        if x < 0.45:
+            return ["i32", str(rng.randint(0, 4))]
+        if x < 0.65:
+            import struct
+            f = rng.choice([0.5, 1.5, 2.0, 3.25, float("nan"), float("inf"), -0.0, 2.5])
+            return ["f", "bits:%016x" % struct.unpack(">Q", struct.pack(">d", f))[0]]
+        if x < 0.9:
+            return ["s", rng.choice(strs)]
+        return ["n"]
+    homog = rng.random() < 0.5
+    colkind = [rng.choice(["i", "f", "s"]) for _ in range(ar)]
+    def hv(k):
+        if k == "i":
+            return ["i64", str(rng.randint(0, 5))]
+        if k == "s":
+            return ["s", rng.choice(strs)]
+        import struct
+        return ["f", "bits:%016x" % struct.unpack(">Q", struct.pack(">d", rng.choice([0.5, 1.5, 2.0, 3.25, 2.5])))[0]]
+    tuples = [[(hv(colkind[c]) if homog else v()) for c in range(ar)] for _ in range(rng.randint(2, 6))]
+    steps = [{"k": "raw_ins", "kg": "default", "rel": "r", "tuples": tuples, "judge": [], "markers": {}}]
+    vs = ["A", "B", "C"][:ar]
+    for _ in range(rng.randint(1, 3)):
+        keys, args = [], []
+        for i, name in enumerate(vs):
+            d = rng.choice(["", "", "asc", "desc"])
+            args.append(name + (":" + d if d else ""))
+            if d:
+                keys.append({"col": i + 1, "dir": d})
+        limit, offset = -1, 0
+        lim = ""
+        x = rng.random()
+        if x < 0.4:
+            limit = rng.randint(0, len(tuples) + 1)
+            lim = f", limit({limit})"
+        elif x < 0.75:
+            limit = rng.randint(0, len(tuples) + 1)
+            offset = rng.randint(0, len(tuples) + 1)
+            lim = f", limit({limit}, {offset})"
+        text = f"?r({', '.join(args)}){lim}"
+        steps.append({"k": "req", "who": None, "kg": "default", "text": text, "ref_text": f"?r({', '.join(vs)})",
+                      "judge": ["C35"], "keys": keys, "limit": limit, "offset": offset, "srank": srank, "markers": {}})
+    return {"case": case, "kind": "c35", "kgs": [], "users": [], "acls": [], "steps": steps}
+
+
 def run_c28():
     rep = vlib.Report("C28")
     wd = vlib.workdir("C28")
@@ -189,7 +403,9 @@ def run(prop, replay=None):
         n = int(os.environ.get("VERIF_N", N[t][prop]))
         rng = random.Random(vlib.seed() * 7919 + int(prop[1:]))
         for i in range(1, n + 1):
-            scenarios.append(gen_c30_scenario(rng, i) if prop == "C30" else gen_auth_scenario(rng, i, prop))
+            gens = {"C30": gen_c30_scenario, "C32": gen_c32_scenario, "C33": gen_c33_scenario, "C34": gen_c34_scenario,
+                    "C35": gen_c35_scenario}
+            scenarios.append(gens[prop](rng, i) if prop in gens else gen_auth_scenario(rng, i, prop))
     with open(scen, "w") as f:
         for s in scenarios:
             f.write(json.dumps(s) + "\n")
@@ -222,7 +438,7 @@ def run(prop, replay=None):
         r = recs.get((cid, step))
         if r is not None:
             text = r["req"].get("text", "")
-            if prop == "C30" or "\n" in text or len(text) > 8:
+            if prop not in ("C27", "C29") or "\n" in text or len(text) > 8:
                 nontriv.add((cid, step))
         if not ok and cid not in rejected:
             preds = set()
@@ -237,6 +453,23 @@ def run(prop, replay=None):
                 preds.add("who." + r["who"]["g"])
                 if r["req"].get("bad"):
                     preds.add("prog.syntax_error")
+                if r["req"].get("data_first"):
+                    preds.add("hist.data_before_schema")
+                if prop == "C34":
+                    preds.add("rules.session" if r["req"].get("sess") else "rules.no_session")
+                    preds.add("rules.persistent" if r["req"].get("pers") else "rules.no_persistent")
+                    if isinstance(info, dict):
+                        preds.add("set.unstratified" if not info.get("stratall") else "set.stratified")
+                        if info.get("accepted") != info.get("submitted"):
+                            preds.add("registration.refused")
+                if prop == "C35":
+                    kinds = {v[0] for t in byc[cid]["steps"][0].get("tuples", []) for v in t}
+                    if len(kinds) > 1:
+                        preds.add("sort.mixed_kinds")
+                    if any(v[0] == "f" and v[1] in ("bits:7ff8000000000000",) for t in byc[cid]["steps"][0].get("tuples", []) for v in t):
+                        preds.add("sort.has_nan")
+                    if "n" in kinds:
+                        preds.add("sort.has_null")
             if tag == "HANG":
                 preds.add("obs.hang")
             rejected[cid] = ({"scenario": byc[cid], "failing_step": step,
